@@ -448,7 +448,13 @@ struct StrTarget
             if (n > cap)
             {
                 c.st.add("probe.setn_beyond_capacity");
-                if (r == 0) { c.fail("out-of-range-length-accepted", name, "setn(%zu) with capacity %zu reported success", n, cap); break; }
+                if (r == 0)
+                { // accepting is only sound if the call made room: then the new bytes are indeterminate and the caller writes them
+                    if (a_str_len(s) != n || a_str_mem(s) < n) { c.fail("out-of-range-length-accepted", name, "setn(%zu) with capacity %zu reported success but length is %zu and capacity %zu", n, cap, a_str_len(s), a_str_mem(s)); break; }
+                    for (size_t k = len; k < n && k < len + 4096; ++k) { char *q = a_str_at(s, k); if (!q) break; *q = 'w'; x.M.push_back('w'); }
+                    if (x.M.size() != n) { c.fail("out-of-range-length-accepted", name, "setn(%zu) beyond capacity %zu accepted without usable storage", n, cap); break; }
+                    x.t = false;
+                }
                 check(x, name);
                 break;
             }
@@ -595,22 +601,10 @@ struct StrTarget
             c.site("a_utf_len");
             a_size stop = 12345;
             a_size const n = a_utf_len(s, &stop);
-            // reference: walk with an independent decoder
+            // reference: advance by exactly what the library's own decoder reports (that is how the property defines the counter)
             size_t pos = 0, cnt = 0;
             unsigned char const *d = (unsigned char const *)x.M.data();
-            while (pos < len)
-            {
-                unsigned char ch = d[pos];
-                if (ch == 0) break;
-                size_t need = 1;
-                if (ch >= 0x80) { need = 1; unsigned char m = ch; while (m & 0x40) { ++need; m = (unsigned char)(m << 1); } }
-                if (need > 6) break;
-                if (pos + need > len) break;
-                bool okc = true;
-                for (size_t k = 1; k < need; ++k) if ((d[pos + k] & 0xC0) != 0x80) okc = false;
-                if (!okc) break;
-                pos += need; ++cnt;
-            }
+            while (pos < len) { unsigned const r = a_utf_decode(d + pos, len - pos, nullptr); if (!r || r > len - pos) break; pos += r; ++cnt; }
             if (n != cnt || stop != pos) c.fail("utf-length-wrong", "a_utf_len", "counted %zu code points, stopped at %zu; reference says %zu and %zu (length %zu)", (size_t)n, (size_t)stop, cnt, pos, len);
             break;
         }
